@@ -60,12 +60,42 @@ def r2_tolerates_vanished_files(repo=None):
             openers[pyfront.call_name(c)] = h
     opens = [n for n in g.nodes if any(pyfront.call_name(c) in openers for c in pyfront.node_calls(n))]
     probes = [n for n in g.nodes if n.kind == "cond" and any(pyfront.call_name(c) == "os.access" for c in pyfront.node_calls(n))]
-    if not opens or not probes:
-        raise AnalysisError("%s: h5py.File / os.access not found" % q)
-    p = probes[0]
-    fs = [b for b, l in g.succ[p.id] if l == "F"]  # `not os.access(...)` decomposed: F edge = not accessible
-    ok = all(o.id not in g.reach([g.entry.id], avoid=[p.id], skip_labels=("exc",)) for o in opens) and not any(
-        o.id in g.reach(fs, avoid=[p.id], skip_labels=("exc", "back")) for o in opens)
+    if not opens:
+        raise AnalysisError("%s: h5py.File not found" % q)
+    fn_read = m.fn(q)
+
+    def guarded_by_handler(o):
+        """the open is inside a try whose IOError/OSError handler does not re-raise (vanished file -> skipped)"""
+        for c in pyfront.node_calls(o):
+            if pyfront.call_name(c) in openers:
+                tr = m.enclosing(c, (ast.Try,))
+                while tr is not None:
+                    in_body = any(c is x for st in tr.body for x in ast.walk(st))
+                    if in_body:
+                        for h in tr.handlers:
+                            names = ["<any>"] if h.type is None else [pyfront.dotted(h.type)] if not isinstance(h.type, ast.Tuple) else [
+                                pyfront.dotted(e) for e in h.type.elts]
+                            if any(n_ in ("IOError", "OSError", "EnvironmentError", "Exception", "<any>") for n_ in names) and not any(
+                                    isinstance(x, ast.Raise) for x in ast.walk(h)):
+                                return True
+                    tr = m.enclosing(tr, (ast.Try,))
+        return False
+    ok = True
+    how = []
+    for o in opens:
+        if guarded_by_handler(o):
+            how.append("try/except IOError")
+            continue
+        if not probes:
+            ok = False
+            continue
+        p = probes[0]
+        fs = [b for b, l in g.succ[p.id] if l == "F"]  # `not os.access(...)` decomposed: F edge = not accessible
+        if o.id in g.reach([g.entry.id], avoid=[p.id], skip_labels=("exc",)) or o.id in g.reach(fs, avoid=[p.id], skip_labels=("exc", "back")):
+            ok = False
+        else:
+            how.append("os.access probe")
+    p = probes[0] if probes else opens[0]
     file_calls = [c for o in opens for c in pyfront.node_calls(o) if pyfront.call_name(c) == "h5py.File"]
     for h in openers.values():
         if h is not None:
@@ -74,9 +104,10 @@ def r2_tolerates_vanished_files(repo=None):
         if pyfront.const(pyfront.kwarg(c, "mode", 1)) != "r":
             ok = False
     if ok:
-        r.ok("%s:%s %s" % (m.rel, p.line, q), "every open is preceded by the os.access probe (inaccessible -> skipped) and is read-only")
+        r.ok("%s:%s %s" % (m.rel, p.line, q), "every open is read-only and tolerates a missing file (%s)" % ", ".join(sorted(set(how))))
     else:
-        r.violation(m.rel, q, "open without os.access probe / not read-only", "a missing or in-progress file is opened", line=opens[0].line)
+        r.violation(m.rel, q, "open without os.access probe or IOError handler / not read-only", "a missing or in-progress file "
+                    "is opened, or its absence makes the read fail", line=opens[0].line)
     r.guard(3)
     return r
 
@@ -134,6 +165,30 @@ def r3_cache_is_keyed_by_full_name(repo=None):
         r.violation(m.rel, q, "cache refresh stores %s (missing %s, outside %s, key set to full path: %s)" % (
                     sorted(stored & need), sorted(need - stored), outside, key_ok),
                     "part of the cached per-file state is not refreshed when the file changes", line=body.lineno)
+    # a closed handle must not stay cached under its old key: after self._cachedFile.close() the key is re-assigned before
+    # the function moves on (next file or return); paths that leave by an uncaught exception are not considered
+    for q2, f2 in m.functions.items():
+        if not q2.startswith(TL + "."):
+            continue
+        g2 = m.cfg(q2)
+        closes = [n for n in g2.nodes if any(pyfront.call_name(c) == "self._cachedFile.close" for c in pyfront.node_calls(n))]
+        if not closes or q2.endswith(".close") or q2.endswith(".__del__"):
+            continue
+        keys = [n.id for n in g2.nodes if isinstance(n.ast, ast.Assign) and any(
+            pyfront.dotted(t) == "self._cachedFilename" for t in n.ast.targets)]
+        heads = [n.id for n in g2.nodes if n.kind == "cond" and isinstance(n.ast, ast.For)]
+        exits = [n.id for n in g2.nodes if n.kind in ("exit", "return")]
+        for cnode in closes:
+            seen = g2.reach([cnode.id], avoid=keys)
+            stale = [x for x in heads + exits if x in seen and x != cnode.id]
+            if stale:
+                tgt = g2.nodes[stale[0]]
+                r.violation(m.rel, q2, "self._cachedFile.close() can be followed by `%s` without re-assigning self._cachedFilename" % (
+                            tgt.label[:40] if tgt.kind == "cond" else "return"), "the cache keeps naming a file whose handle was closed: a later "
+                            "read of that file uses the closed handle and fails (a file that cannot be opened right now, e.g. the "
+                            "writer's next file, is enough)", line=cnode.line)
+            else:
+                r.ok("%s:%s %s" % (m.rel, cnode.line, q2), "after closing the cached handle the key is re-assigned before the next file / return")
     # the key is the absolute join
     if norm(ast.unparse(joins[0].value)) == "os.path.join(self.top_level_dir, self.channel_name, fp)" or [
             norm(ast.unparse(a)) for a in joins[0].value.args[:2]] == ["self.top_level_dir", "self.channel_name"]:
@@ -149,13 +204,14 @@ def rules(repo=None):
             _rebrand(lambda: c02.r3_no_writer_of_final(repo), "C09.P3"), _rebrand(lambda: c02.r4_staged_creation(repo), "C09.P4"),
             _rebrand(lambda: c02.r5_readers_ignore_tmp(repo), "C09.P5"),
             _rebrand(lambda: c02.r6_identity_stable_until_published(repo), "C09.P6"),
+            _rebrand(lambda: c02.r7_failed_create_not_published(repo), "C09.P7"),
             lambda: c20.r1_read_roles(repo, rid="C09.R1", prefixes=("digital_rf_hdf5:", "list_drf:"),
                                           stop_modules=("digital_metadata",)),
             lambda: r2_tolerates_vanished_files(repo), lambda: r3_cache_is_keyed_by_full_name(repo)]
 
 
 EXPLANATION = (
-    "Protocol argument for all interleavings of two processes sharing only the directory tree. P1-P5 = C02.R1-R5 (tmp-name "
+    "Protocol argument for all interleavings of two processes sharing only the directory tree. P1-P7 = C02.R1-R7 (tmp-name "
     "provenance, close-before-rename typestate, no writer of final names, staged creation, grammars exclude tmp.). R1: no path "
     "in the call graph from any DigitalRFReader / listing entry point to a file-system mutator. R2: get_bounds skips files that "
     "fail to open; _read probes with os.access and opens read-only. R3: the per-file cache is keyed by the full path and all of "
